@@ -132,6 +132,18 @@ Theorem C04_short_compaction_loop_refuted :
 Proof. exact short_loop_refuted. Qed.
 Print Assumptions C04_short_compaction_loop_refuted.
 
+(* rows / columns appended with a live basis (addedRows / addedCols): the new rows enter basic, the new columns non-basic,
+   and a valid descriptor stays valid for the extended LP - for every LP, every valid descriptor and any number of new rows *)
+Theorem C04_added_rows_keep_descriptor_valid : forall lp newrows d, isDescValid lp d = true ->
+  isDescValid (mkBlp (b_rows lp ++ newrows) (b_cols lp)) (added_rows (mkBlp (b_rows lp ++ newrows) (b_cols lp)) d) = true.
+Proof. exact added_rows_valid. Qed.
+Print Assumptions C04_added_rows_keep_descriptor_valid.
+
+Theorem C04_added_cols_keep_descriptor_valid : forall lp newcols d, isDescValid lp d = true ->
+  isDescValid (mkBlp (b_rows lp) (b_cols lp ++ newcols)) (added_cols (mkBlp (b_rows lp) (b_cols lp ++ newcols)) d) = true.
+Proof. exact added_cols_valid. Qed.
+Print Assumptions C04_added_cols_keep_descriptor_valid.
+
 Example C04_ex_removed_rows :
   removed_rows (mkDesc [D_ON_LOWER; P_ON_UPPER; D_ON_UPPER; P_ON_LOWER] [D_ON_LOWER; P_FREE]) [true; false; true; false]
     = Some (mkDesc [P_ON_UPPER; P_ON_LOWER] [D_ON_LOWER; P_FREE]) /\
